@@ -17,7 +17,7 @@ type cliRes struct {
 	Exit           int  // -1 when killed by a signal
 	Signal         bool // died of a signal (a Go panic exits with status 2 and a trace on stderr)
 	TimedOut       bool
-	Panic          bool // stderr carries a Go panic / fatal error trace
+	Panic          bool    // stderr carries a Go panic / fatal error trace
 	CPU            float64 // user+system CPU seconds of the child (rusage)
 }
 
